@@ -216,13 +216,16 @@ def api_table_names(i):
         t2 = Table('other', columns=[Column('x', 'int')])
         db.add(t1)
         db.add(t2)
-        db.add(Reference('>', [t2.columns[0]], [t1.columns[0]], inline=a['inline']))
+        r = Reference('>', [t2.columns[0]], [t1.columns[0]], inline=a['inline'])
+        db.add(r)
+        if a['flip']:
+            r.type = '<>'          # attribute edits are part of building a model: a many-to-many reference is never inline
         return db
 
     def body(a):
         return _roundtrip(build(a))
 
-    return Harness(body, [('schema', 'bool'), ('alias', IntRange(0, 2)), ('inline', 'bool')],
+    return Harness(body, [('schema', 'bool'), ('alias', IntRange(0, 2)), ('inline', 'bool'), ('flip', 'bool')],
                    describe=lambda a: dict(_rt_detail(build(a)), name=TABLE_NAMES[i]), bounds={'name': TABLE_NAMES[i]})
 
 
